@@ -1,0 +1,141 @@
+//go:build verif
+
+package storage
+
+// Contracts for the contract-based deductive verification in /verif (engine: gvc).
+// Comment-only: with the tag off this file is not compiled, with it on it adds no code.
+
+// Object invariants (hidden from other packages: all fields are unexported, every method below
+// re-establishes them, the constructors establish them).
+
+//@ pred ramInv(s *fileRAM) := forall(i, (0 <= i && i < len(s.parts)) ==> s.parts[i] != nil)
+
+//@ pred diskInv(s *fileDisk) := forall(i, (0 <= i && i < len(s.parts)) ==> (s.parts[i] != nil && s.parts[i].s == s))
+//@   && forall(i, j, (0 <= i && i < j && j < len(s.parts)) ==> s.parts[i] != s.parts[j])
+
+//@   && (s.f != nil ==> forall(i, (0 <= i && i < len(s.parts)) ==> s.parts[i].buffer != nil))
+//@   && (len(s.parts) >= 1 ==> s.parts[0].offset == 0)
+//@   && forall(i, (0 <= i && i + 1 < len(s.parts)) ==> s.parts[i+1].offset == s.parts[i].offset + s.parts[i].size)
+
+//@ func newFileRAM
+//@   props C17
+//@   ensures result != nil && is(result, *fileRAM) && fresh(result) && ramInv(result.(*fileRAM)) && !result.(*fileRAM).finalized
+//@ end
+
+//@ func fileRAM.NewPart
+//@   props C17 C05
+//@   invariant ramInv(s)
+//@   modifies s.parts
+//@   ensures result != nil && is(result, *partRAM) && fresh(result)
+//@   ensures len(s.parts) == old(len(s.parts)) + 1 && s.parts[len(s.parts)-1] == result.(*partRAM)
+//@   ensures forall(i, (0 <= i && i < old(len(s.parts))) ==> s.parts[i] == old(s.parts[i]))
+//@ end
+
+//@ func fileRAM.Finalize
+//@   props C17
+//@   invariant ramInv(s)
+//@   modifies s.finalized, s.finalSize
+//@   ensures s.finalized
+//@ end
+
+//@ func fileRAM.Reader
+//@   props C17 C05
+//@   invariant ramInv(s)
+//@   ensures !s.finalized ==> (result1 != nil && result0 == nil)
+//@   ensures s.finalized ==> (result1 == nil && result0 != nil)
+//@ end
+
+//@ func fileRAM.Size
+//@   props C17
+//@   ensures result == s.finalSize
+//@ end
+
+//@ func fileRAM.Remove
+//@   props C17 C07
+//@ end
+
+//@ func partRAM.Writer
+//@   props C17
+//@   ensures result != nil
+//@ end
+
+//@ func partRAM.Reader
+//@   props C17 C05
+//@   ensures result1 == nil && result0 != nil
+//@ end
+
+//@ func fileDisk.NewPart
+//@   props C17 C05
+//@   arith math
+//@   invariant diskInv(s)
+//@   requires s.f != nil
+//@   modifies s.parts, partDisk.size
+//@   ensures result != nil && is(result, *partDisk) && fresh(result)
+//@   ensures len(s.parts) == old(len(s.parts)) + 1 && s.parts[len(s.parts)-1] == result.(*partDisk)
+//@   ensures forall(i, (0 <= i && i < old(len(s.parts))) ==> s.parts[i] == old(s.parts[i]))
+//@   ensures result.(*partDisk).s == s && result.(*partDisk).buffer != nil
+//@   ensures old(len(s.parts)) == 0 ==> result.(*partDisk).offset == 0
+//@   ensures old(len(s.parts)) >= 1 ==> result.(*partDisk).offset == old(s.parts[len(s.parts)-1]).offset + s.parts[len(s.parts)-2].size
+//@ end
+
+//@ func fileDisk.Finalize
+//@   props C17 C05
+//@   arith math
+//@   invariant diskInv(s)
+//@   requires s.f != nil
+//@   modifies s.finalSize, s.f, partDisk.size, partDisk.buffer
+//@   ensures s.f == nil
+//@   ensures len(s.parts) >= 1 ==> s.finalSize == s.parts[len(s.parts)-1].offset + s.parts[len(s.parts)-1].size
+//@   ensures forall(i, (0 <= i && i < len(s.parts)) ==> s.parts[i].buffer == nil)
+//@   loop 1 invariant ri < len(s.parts) && forall(k, (0 <= k && k <= ri) ==> s.parts[k].buffer == nil)
+//@   loop 1 invariant forall(k, (0 <= k && k < len(s.parts)) ==> (s.parts[k] != nil && s.parts[k].s == s))
+//@   loop 1 invariant forall(i, j, (0 <= i && i < j && j < len(s.parts)) ==> s.parts[i] != s.parts[j])
+//@   loop 1 invariant (len(s.parts) >= 1 ==> s.parts[0].offset == 0) && forall(i, (0 <= i && i + 1 < len(s.parts)) ==> s.parts[i+1].offset == s.parts[i].offset + s.parts[i].size)
+//@   loop 1 invariant len(s.parts) >= 1 ==> s.finalSize == s.parts[len(s.parts)-1].offset + s.parts[len(s.parts)-1].size
+//@ end
+
+//@ func fileDisk.Reader
+//@   props C17 C05
+//@   ensures s.f != nil ==> (result1 != nil && result0 == nil)
+//@ end
+
+//@ func fileDisk.Size
+//@   props C17
+//@   ensures result == s.finalSize
+//@ end
+
+//@ func fileDisk.Remove
+//@   props C17 C07
+//@   ensures calls("os.Remove") == 1 && callarg("os.Remove", 0, 0) == s.fpath
+//@ end
+
+//@ func partDisk.Writer
+//@   props C17
+//@   requires p.s != nil
+//@   ensures result != nil
+//@ end
+
+//@ func partDisk.Reader
+//@   props C17 C05
+//@   requires p.s != nil
+//@   ensures p.buffer != nil ==> (result1 == nil && result0 != nil)
+//@ end
+
+// doubleWriter mirrors every write and seek to both sinks; a failing first sink reports 0
+//@ func doubleWriter.Write
+//@   props C17
+//@   requires w.w1 != nil && w.w2 != nil
+//@   ensures calls("invoke.Write") >= 1 && callarg("invoke.Write", 0, 0) == ref(w.w1) && callarg("invoke.Write", 0, 1) == ref(p)
+//@   ensures calls("invoke.Write") == 2 ==> (callarg("invoke.Write", 1, 0) == ref(w.w2) && callarg("invoke.Write", 1, 1) == ref(p))
+//@   ensures calls("invoke.Write") == 1 ==> (result0 == 0 && result1 != nil)
+//@   ensures calls("invoke.Write") <= 2
+//@ end
+
+//@ func doubleWriter.Seek
+//@   props C17
+//@   requires w.w1 != nil && w.w2 != nil
+//@   ensures calls("invoke.Seek") >= 1 && callarg("invoke.Seek", 0, 0) == ref(w.w1) && callarg("invoke.Seek", 0, 1) == offset && callarg("invoke.Seek", 0, 2) == whence
+//@   ensures calls("invoke.Seek") == 2 ==> (callarg("invoke.Seek", 1, 0) == ref(w.w2) && callarg("invoke.Seek", 1, 1) == offset && callarg("invoke.Seek", 1, 2) == whence)
+//@   ensures calls("invoke.Seek") == 1 ==> (result0 == 0 && result1 != nil)
+//@   ensures calls("invoke.Seek") <= 2
+//@ end
